@@ -139,10 +139,10 @@ SCHEMAS = {
     # identifiers that are also SQL keywords / cardinality words
     'keywords': {
         'classes': ['M', 'Table'],
-        'attrs': {'M': [at('To', ID), at('TRUE', 'BOOLEAN')],
+        'attrs': {'M': [at('To', ID), at('TRUE', 'BOOLEAN'), at('R9', 'INTEGER')],
                   'Table': [at('Index', ID), at('Values', 'INTEGER'), at('Phrase', 'STRING'), at('From', ID)]},
         'assocs': [A('R1', 'Table', ['From'], 'MC', 'M', ['To'], '1', sphrase='create', tphrase='insert into')],
-        'uniques': {'M': [U('Unique', 'To')], 'Table': [U('On', 'Index'), U('Rop', 'Values', 'Phrase')]},
+        'uniques': {'M': [U('Unique', 'To'), U('R3', 'R9', 'To')], 'Table': [U('On', 'Index'), U('Rop', 'Values', 'Phrase')]},
     },
     # two associations to one class over the same two-attribute key, listed in different orders;
     # identifier values of one type that may be permuted
